@@ -131,9 +131,24 @@ def impl_oracle(c):
     scripted peer sent; no model involved.  Returns [(key, description)]."""
     out = []
     if c.get("crash"):
-        return [("crash", "the process crashed: %s" % c["crash"][:200])]
+        what = "the process crashed: %s" % c["crash"][:200]
+        if c["stream"] == "behind":
+            what += " -- calls that had passed the shutdown check were queued behind the shutdown request"
+        if c["stream"] == "stress":
+            what += " -- 64 goroutines calling Hello in a loop while the transport was shut down under them"
+        return [("crash", what)]
     if c.get("hang"):
         out.append(("hang", "no response within 10 s: %s" % c["hang"]))
+    if c["stream"] == "stress":
+        for k, nk in sorted((c.get("stress") or {}).items()):
+            if k not in ("ok", "alreadyshutdown", "eof"):
+                out.append(("stress-unexpected-result", "%d calls racing the shutdown returned %s" % (nk, k)))
+        return out
+    for x in c["callers"]:
+        if x.get("rejected_but_sent"):
+            out.append(("rejected-call-sent",
+                        "call %d was taken by serve after the shutdown request and completed with %s, but its "
+                        "request reached the peer all the same" % (x["k"], x["res"])))
     frames = c.get("frames", [])
     events = c.get("events", [])
     call_ev = {}
@@ -208,7 +223,8 @@ def run(ck):
         cases = rpc_common.run_script(ck, binp, [replayed])
         ck.log("replaying %s: %d case(s)" % (ck.replay, len(cases)))
     elif binp:
-        rc, out, err = vlib.sh2([binp, "-seed", str(ck.seed), "-n", str(n)], timeout=3000)
+        rc, out, err = vlib.sh2([binp, "-seed", str(ck.seed), "-n", str(n), "-stress", "1" if not ck.thorough else "10"],
+                                timeout=3000)
         if rc != 0:
             ck.broken.append({"what": "harness run failed", "detail": err[-1500:]})
         for line in out.splitlines():
@@ -233,7 +249,7 @@ def run(ck):
     shrunk = set()
     for c in cases:
         nframes = len(c.get("frames", []))
-        trivial = len(c.get("callers", [])) <= 1 and nframes <= 1
+        trivial = len(c.get("callers", [])) <= 1 and nframes <= 1 and c["stream"] != "stress"
         # (the key does not depend on the order in which concurrent callers reached the wire)
         ck.count(c["stream"], key=json.dumps([c["steps"], [(x["k"], x["res"]) for x in c["callers"]]],
                                              sort_keys=True), trivial=trivial)
@@ -256,6 +272,9 @@ def run(ck):
                    "callers": [(x["k"], x["kind"], x["res"]) for x in c["callers"]]})
 
     model_ok = all(built.get(x) for x in MODEL)
+    ck.coverage["stress_calls"] = {k: sum((c.get("stress") or {}).get(k, 0) for c in cases if c["stream"] == "stress")
+                                   for k in ("ok", "alreadyshutdown", "eof")}
+    cases = [c for c in cases if c["stream"] != "stress"]       # (no history to replay)
     if cases and model_ok:
         from concurrent.futures import ThreadPoolExecutor
         shard = 60 if not ck.thorough else 250
@@ -315,7 +334,11 @@ def run(ck):
              "2^1..2^63, 1..1100 or a random multiple beyond the highest outstanding id; one call left unanswered "
              "while 127 / 255 / 1023 younger ones are issued and answered, then the old and the newest answered in "
              "that order) then seeded histories over streams "
-             "{perm, bad, mixed, sendfail, errbyte, shutdown, hint, peerclose, cancel, alias, held, ctx}; ctx = older calls "
+             "{perm, bad, mixed, sendfail, errbyte, shutdown, hint, peerclose, cancel, alias, held, ctx, behind}; behind = calls that have passed asyncCall's shutdown check "
+             "are stopped before the enqueue (a context whose first Done() waits), the shutdown request is issued and "
+             "reaches the peer, the calls are let into the queue BEHIND it: serve must complete each once with "
+             "errAlreadyShutdown and not send it; plus a stress case: 64 goroutines calling Hello in a loop against a "
+             "peer that answers everything while the transport is shut down, 150 rounds; ctx = older calls "
              "(mostly including the first call of the transport) left outstanding while contexts of younger calls end at "
              "every stage: calls issued with a finished context (about half still get queued and are sent), contexts "
              "ending in the queue (serve held at its schedule point after taking a call), between the request's write "
